@@ -24,6 +24,9 @@ def run(prop, tier):
     if prop == "C11":
         import p3
         return p3.judge(prop, tier)
+    if prop == "C15":
+        import p8
+        return p8.judge(prop, tier)
     raise ToolError("no check for %s" % prop)
 
 
@@ -49,4 +52,7 @@ def replay(prop, path):
     if prop == "C11":
         import p3
         return p3.replay(prop, path)
+    if prop == "C15":
+        import p8
+        return p8.replay(prop, path)
     raise ToolError("no replay for %s" % prop)
